@@ -56,7 +56,7 @@ theorem baseI_head (s : St) (h : Inv s) (v : Int) (e : Elem) (rest : List Sto) (
   simp only [RcPre, InsShape, hb] at this
   refine ⟨hpc, ?_, ?_, hv⟩ <;> grind
 
-set_option maxHeartbeats 4000000 in
+set_option maxHeartbeats 1000000 in
 /-- every `top` value that reaches memory is at most `size` -/
 theorem top_head_le (s : St) (h : Inv s) (hb : Bnd s) (v : Int) (rest : List Sto) (hbuf : s.bufO = .top v :: rest) :
     v ≤ s.size := by
@@ -64,7 +64,7 @@ theorem top_head_le (s : St) (h : Inv s) (hb : Bnd s) (v : Int) (rest : List Sto
   cases hpc : s.opc
   all_goals tso_shapes_core h hpc
 
-set_option maxHeartbeats 4000000 in
+set_option maxHeartbeats 1000000 in
 /-- every `base` value the owner sends to memory is non-negative -/
 theorem base_head_ge (s : St) (h : Inv s) (hb : Bnd s) (v : Int) (rest : List Sto) (hbuf : s.bufO = .base v :: rest) :
     0 ≤ v := by
